@@ -16,6 +16,7 @@ import shutil
 import subprocess
 import sys
 import tempfile
+import threading
 import time
 
 VERIF = os.path.dirname(os.path.dirname(os.path.abspath(__file__)))
@@ -25,6 +26,8 @@ HARNESS = os.path.join(VERIF, "harness")
 EVID = os.path.join(VERIF, "evidence")
 REPLAYS = os.path.join(VERIF, "out", "replays")
 KNOWN = os.path.join(VERIF, "KNOWN_FINDINGS.json")
+
+_lock = threading.Lock()
 
 GOENV = dict(GOFLAGS="-mod=mod", GOPROXY="off", GOSUMDB="off", GOTOOLCHAIN="local")
 
@@ -105,14 +108,21 @@ class Ctx:
         setattr(self, attr, out)
         return out
 
-    def run_vh(self, args, race=False, timeout=1800, env=None, check=True, stdin=None):
+    def run_vh(self, args, race=False, timeout=1800, env=None, check=True, stdin=None, as_limit_gb=None):
         e = dict(os.environ, **GOENV)
         e["VERIF_SEED"] = str(self.seed)
         if env:
             e.update(env)
         t = time.time()
+        pre = None
+        if as_limit_gb:
+            import resource
+
+            def pre():
+                lim = int(as_limit_gb * (1 << 30))
+                resource.setrlimit(resource.RLIMIT_AS, (lim, lim))
         try:
-            p = subprocess.run([self.vh(race)] + [str(a) for a in args], cwd=self.tmp, env=e, input=stdin,
+            p = subprocess.run([self.vh(race)] + [str(a) for a in args], cwd=self.tmp, env=e, input=stdin, preexec_fn=pre,
                                stdout=subprocess.PIPE, stderr=subprocess.PIPE, text=True, timeout=timeout)
         except subprocess.TimeoutExpired:
             raise Infra("harness timeout: vh %s" % " ".join(map(str, args)))
@@ -134,7 +144,9 @@ class Ctx:
         """Run TLC; returns dict(rc, out, generated, distinct, emitted[list of json objects],
         errors[list of str], violated[str|None])."""
         d = self.specdir()
-        n = len(self.cov["tlc_runs"])
+        with _lock:
+            self._tlcn = getattr(self, "_tlcn", 0) + 1
+            n = self._tlcn
         meta = os.path.join(self.tmp, "meta%d" % n)
         cmd = ["java", "-XX:+UseParallelGC", "-Xmx" + heap, "-Xss64m"]
         if workers == 1:
@@ -172,8 +184,9 @@ class Ctx:
                                          distinct=res["distinct"], wall_s=round(wall, 1), rc=rc,
                                          emitted=len(res["emitted"])))
         if count:
-            self.cov["states"] += res["distinct"]
-            self.cov["transitions"] += res["generated"]
+            with _lock:
+                self.cov["states"] += res["distinct"]
+                self.cov["transitions"] += res["generated"]
         log("[%s] TLC %s/%s rc=%d gen=%d distinct=%d emitted=%d %.1fs" %
             (self.prop, module, cfg, rc, res["generated"], res["distinct"], len(res["emitted"]), wall))
         if rc != 0 and not (allow_violation and res["violated"]):
@@ -201,6 +214,40 @@ class Ctx:
         rejects = [o for o in res["emitted"] if isinstance(o, dict) and o.get("k") == "reject"]
         res["rejects"] = rejects
         return res
+
+
+def validate_events(ctx, module, cfg, events, shards=8, timeout=1800, env=None, heap="3g", resets=None):
+    """Split `events` into shards (cut only at indices listed in `resets` when given, i.e. at
+    trace boundaries), validate the shards in parallel (one single-worker TLC each) and return
+    the list of (event_index, why) rejects with indices into `events`."""
+    from concurrent.futures import ThreadPoolExecutor
+    n = len(events)
+    if n == 0:
+        return []
+    shards = max(1, min(shards, n))
+    cuts = [0]
+    for k in range(1, shards):
+        c = (n * k) // shards
+        if resets is not None:
+            later = [r for r in resets if r >= c]
+            if not later:
+                break
+            c = later[0]
+        if c > cuts[-1] and c < n:
+            cuts.append(c)
+    cuts.append(n)
+    ctx.specdir()
+
+    def one(j):
+        a, b = cuts[j], cuts[j + 1]
+        path = os.path.join(ctx.tmp, "shard-%s-%d-%d.ndjson" % (module.replace(".tla", ""), len(ctx.cov["tlc_runs"]), j))
+        write_ndjson(path, events[a:b])
+        res = ctx.validate_trace(module, cfg, path, b - a, timeout=timeout, env=env, heap=heap)
+        os.unlink(path)
+        return [(a + r["i"] - 1, r["why"]) for r in res["rejects"]]
+    with ThreadPoolExecutor(max_workers=shards) as ex:
+        parts = list(ex.map(one, range(len(cuts) - 1)))
+    return [x for part in parts for x in part]
 
 
 _re_states = re.compile(r"^(\d+) states generated, (\d+) distinct states found")
